@@ -12,7 +12,7 @@ from engine.symutil import Verdict, untraced
 
 META = {
     "bounds": {
-        "quick": "k<=3 arrivals (k sharded), gaps sym in [0,20], interval sym in [1,10], "
+        "quick": "k<=4 arrivals (k sharded), gaps sym in [0,20], interval sym in [1,10], "
                  "handling durations sym in [0,12]; blind (concurrent) and awaiting producers; "
                  "unbounded lemma on rate_limit.update by AST->SMT (z3+cvc5), any number of arrivals",
         "thorough": "k<=5 arrivals, same symbolic ranges; two awaiting producers",
@@ -183,7 +183,7 @@ def body_delay(shard, *v):
 
 def obligations(tier):
     obls = []
-    kmax = 3 if tier == "quick" else 5
+    kmax = 4 if tier == "quick" else 5
     for k in range(1, kmax + 1):
         for mode in ("blind", "await"):
             for slow in (False, True):
